@@ -6,22 +6,26 @@ require (
 	github.com/anishathalye/porcupine v1.3.0
 	github.com/cilium/ebpf v0.12.3
 	github.com/codelaboratoryltd/bng v0.0.0-00010101000000-000000000000
+	github.com/insomniacslk/dhcp v0.0.0-20231206064809-8c70d406f6d2
 	go.uber.org/zap v1.27.0
+	layeh.com/radius v0.0.0-20231213012653-1006025d24f8
 )
 
 require (
 	github.com/google/uuid v1.6.0 // indirect
-	github.com/insomniacslk/dhcp v0.0.0-20231206064809-8c70d406f6d2 // indirect
 	github.com/josharian/native v1.1.0 // indirect
+	github.com/mdlayher/packet v1.1.2 // indirect
+	github.com/mdlayher/socket v0.5.0 // indirect
 	github.com/pierrec/lz4/v4 v4.1.18 // indirect
 	github.com/u-root/uio v0.0.0-20230220225925-ffce2a382923 // indirect
 	github.com/vishvananda/netlink v1.3.1 // indirect
 	github.com/vishvananda/netns v0.0.5 // indirect
 	go.uber.org/multierr v1.11.0 // indirect
 	golang.org/x/exp v0.0.0-20250718183923-645b1fa84792 // indirect
+	golang.org/x/net v0.48.0 // indirect
+	golang.org/x/sync v0.19.0 // indirect
 	golang.org/x/sys v0.39.0 // indirect
 	golang.org/x/time v0.14.0 // indirect
-	layeh.com/radius v0.0.0-20231213012653-1006025d24f8 // indirect
 )
 
 replace github.com/codelaboratoryltd/bng => /repo
